@@ -497,3 +497,59 @@ def star_elements(v):
                 return None
         return out or None
     return None
+
+
+def value_formula(fx, assigns, default=None):
+    """Boolean next-value of a 1-bit signal from its assignments (in program order; Migen: the last assignment whose guard holds
+    wins): ite(G_n, V_n, ite(G_n-1, V_n-1, ... default)).  `default` = None means "holds" (an atom named after the target)."""
+    from . import boolx as B
+    assigns = sorted(assigns, key=lambda a: fx.assigns.index(a))
+    if not assigns:
+        return None
+    f = default if default is not None else B.A(assigns[0].t + "'hold")
+    for a in assigns:
+        v = B.T if a.v == "1" else (B.F if a.v == "0" else B.from_expr(a.value))
+        g = B.guard_formula(a.guards)
+        f = B.Or(B.And(g, v), B.And(B.Not(g), f))
+    return f
+
+
+def eval_over(formula, var, values, extra=None):
+    """{value: truth} of a boolean formula whose atoms are comparisons of `var` with integer literals (or names in extra), for each
+    integer in `values` -- an exhaustive decision table over a small unsigned range."""
+    from . import boolx as B
+    out = {}
+    for v in values:
+        val = {}
+        for at in B.atoms(formula):
+            try:
+                e = ast.parse(at, mode="eval").body
+            except SyntaxError:
+                return None
+            env = {var: v}
+            env.update(extra or {})
+
+            def ev(x):
+                if isinstance(x, ast.Constant) and isinstance(x.value, int):
+                    return x.value
+                if isinstance(x, ast.Name) and x.id in env:
+                    return env[x.id]
+                if isinstance(x, ast.BinOp) and isinstance(x.op, (ast.Add, ast.Sub)):
+                    return ev(x.left) + ev(x.right) if isinstance(x.op, ast.Add) else ev(x.left) - ev(x.right)
+                raise ValueError(norm(x))
+            if not (isinstance(e, ast.Compare) and len(e.ops) == 1):
+                return None
+            try:
+                a_, b_ = ev(e.left), ev(e.comparators[0])
+            except ValueError:
+                return None
+            op = e.ops[0]
+            r = {ast.Eq: a_ == b_, ast.NotEq: a_ != b_, ast.Lt: a_ < b_, ast.LtE: a_ <= b_, ast.Gt: a_ > b_, ast.GtE: a_ >= b_}.get(type(op))
+            if r is None:
+                return None
+            val[at] = r
+        try:
+            out[v] = bool(B.ev(formula, val))
+        except KeyError:
+            return None
+    return out
